@@ -69,10 +69,29 @@ theorem oneData_logs_data_logs' (a p : List Log) (b : Batch) :
 theorem oneData_logs_logs (a p : List Log) : oneData (logItems a ++ logItems p) = true :=
   oneData_of_leOnly _ (by simp [leOnly_append, leOnly_logItems])
 
+theorem leOnly_logs_err (a : List Log) (e : Exn) : leOnly (logItems a ++ [Item.err e]) = true := by
+  rw [leOnly_append, leOnly_logItems]; rfl
+
+theorem leOnly_logs_logs_err (a p : List Log) (e : Exn) : leOnly (logItems a ++ logItems p ++ [Item.err e]) = true := by
+  rw [leOnly_append, leOnly_append, leOnly_logItems, leOnly_logItems]; rfl
+
+theorem leOnly_logs_logs_err' (a p : List Log) (e : Exn) : leOnly (logItems a ++ (logItems p ++ [Item.err e])) = true := by
+  rw [← List.append_assoc]; exact leOnly_logs_logs_err a p e
+
+theorem oneData_logs_err (a : List Log) (e : Exn) : oneData (logItems a ++ [Item.err e]) = true :=
+  oneData_of_leOnly _ (leOnly_logs_err a e)
+
+theorem oneData_logs_logs_err (a p : List Log) (e : Exn) : oneData (logItems a ++ logItems p ++ [Item.err e]) = true :=
+  oneData_of_leOnly _ (leOnly_logs_logs_err a p e)
+
+theorem oneData_logs_logs_err' (a p : List Log) (e : Exn) : oneData (logItems a ++ (logItems p ++ [Item.err e])) = true :=
+  oneData_of_leOnly _ (leOnly_logs_logs_err' a p e)
+
 theorem oneData_stepOut (exch : Bool) (st : Step) : oneData (Abs.items (stepOut exch st)) = true := by
   unfold stepOut
   cases exch <;> cases h : st.act <;>
-    simp [processExchangeStep, processStep, h, Abs.items, oneData_logs_data_logs', oneData_logs_logs, oneData, isLE, leOnly]
+    simp [processExchangeStep, processStep, h, Abs.items, oneData_logs_data_logs', oneData_logs_logs, oneData_logs_err,
+      oneData_logs_logs_err, oneData_logs_logs_err']
 
 /-! ### frees do not touch memory -/
 
@@ -227,7 +246,8 @@ theorem finishRead_sim {A : Allocator} (c : Conn A) (w : World A) (s1 : Sess) (t
 theorem fail_items (exch : Bool) (st : Step) (items : List Item) (h : stepOut exch st = .fail items) :
     leOnly items = true := by
   unfold stepOut at h
-  cases exch <;> cases ha : st.act <;> simp [processExchangeStep, processStep, ha] at h <;> subst h <;> rfl
+  cases exch <;> cases ha : st.act <;> simp [processExchangeStep, processStep, ha] at h <;> subst h <;>
+    first | exact leOnly_logs_err _ _ | exact leOnly_logs_logs_err _ _ _ | exact leOnly_logs_logs_err' _ _ _
 
 /-- what one server iteration writes, in terms of the step's items -/
 theorem serverStep_spec {A : Allocator} (cfg : Cfg) (w : World A) (s : Sess) (hIn : Option Hnd) (coerce : Option Exn) :
@@ -287,7 +307,9 @@ theorem sendOp_sim {A : Allocator} (cfg : Cfg) (hneed : ∀ b, 0 < cfg.need b) (
     cases hie : s.initErr with
     | some e =>
       simp only []
-      refine ⟨by trivial, ?_⟩
+      have hr := read_put cfg hneed t.carry [] (drainInput (pinOf cfg c.w inp).2 (pinOf cfg c.w inp).1) _ h4 rfl rfl
+      simp only [putItems, List.append_nil, ← h3] at hr
+      refine ⟨by rw [hr.1], ?_⟩
       simp [R, SessRel, h1, h5, hie, ← h2, leOnly]
     | none =>
       simp only []
@@ -393,9 +415,7 @@ theorem step_sim {A : Allocator} (cfg : Cfg) (hneed : ∀ b, 0 < cfg.need b) (c 
     | false =>
       simp only [Bool.false_eq_true, if_false]
       refine ⟨by trivial, ?_⟩
-      cases init with
-      | none => simp [R, SessRel, inlLogs, leOnly_logItems]
-      | some e => simp [R, SessRel, leOnly]
+      cases init <;> simp [R, SessRel, inlLogs, leOnly_logItems]
   | tick =>
     unfold R at h
     cases hc : c.sess with
@@ -526,12 +546,12 @@ theorem abs_iterate (steps : List Step) :
     | raise e =>
       simp only [absIterAll, Abs.sendOp, stepOutOf, stepOut, headStep, processStep, hact, Abs.items, Abs.isCont,
         Pipe.iterate, Bool.false_eq_true, if_false, restAfter, List.tail_cons]
-      rw [read_logs_err]
+      rw [regroup_err, read_logs_err]
       simp [Abs.finishRead, absIterAll_closed, Abs.closeS]
     | nothing =>
       simp only [absIterAll, Abs.sendOp, stepOutOf, stepOut, headStep, processStep, hact, Abs.items, Abs.isCont,
         Pipe.iterate, Bool.false_eq_true, if_false, restAfter, List.tail_cons]
-      rw [read_logs_err]
+      rw [regroup_err, read_logs_err]
       simp [Abs.finishRead, absIterAll_closed, Abs.closeS]
 
 open Engine.Aux in
@@ -561,22 +581,22 @@ theorem abs_exchange (steps : List Step) :
     | finish =>
       simp only [absExchAll, Abs.sendOp, stepOutOf, stepOut, headStep, processExchangeStep, hact, Abs.items,
         Abs.isCont, Pipe.exchangeAll, Pipe.exchangeOne, Bool.false_eq_true, if_false, if_true, restAfter, List.tail_cons]
-      rw [read_logs_err]
+      rw [regroup_err2, read_logs_err]
       simp [Abs.finishRead, absExchAll_closed, Abs.closeS]
     | emitFinish b' =>
       simp only [absExchAll, Abs.sendOp, stepOutOf, stepOut, headStep, processExchangeStep, hact, Abs.items,
         Abs.isCont, Pipe.exchangeAll, Pipe.exchangeOne, Bool.false_eq_true, if_false, if_true, restAfter, List.tail_cons]
-      rw [read_logs_err]
+      rw [regroup_err2, read_logs_err]
       simp [Abs.finishRead, absExchAll_closed, Abs.closeS]
     | raise e =>
       simp only [absExchAll, Abs.sendOp, stepOutOf, stepOut, headStep, processExchangeStep, processStep, hact, Abs.items,
         Abs.isCont, Pipe.exchangeAll, Pipe.exchangeOne, Bool.false_eq_true, if_false, if_true, restAfter, List.tail_cons]
-      rw [read_logs_err]
+      rw [regroup_err, read_logs_err]
       simp [Abs.finishRead, absExchAll_closed, Abs.closeS]
     | nothing =>
       simp only [absExchAll, Abs.sendOp, stepOutOf, stepOut, headStep, processExchangeStep, processStep, hact, Abs.items,
         Abs.isCont, Pipe.exchangeAll, Pipe.exchangeOne, Bool.false_eq_true, if_false, if_true, restAfter, List.tail_cons]
-      rw [read_logs_err]
+      rw [regroup_err, read_logs_err]
       simp [Abs.finishRead, absExchAll_closed, Abs.closeS]
 
 theorem iterAll_sim {A : Allocator} (cfg : Cfg) (hneed : ∀ b, 0 < cfg.need b) (n : Nat) :
@@ -735,6 +755,13 @@ theorem good_append_logs (a : List Log) (r : List Item) (h : good r = true) : go
   | nil => simpa [logItems] using h
   | cons l t ih => simpa [logItems, good] using ih
 
+theorem good_logs_err (a : List Log) (e : Exn) : good (logItems a ++ [Item.err e]) = true :=
+  good_append_logs a _ (by simp [good, leOnly])
+
+theorem good_logs_logs_err (a p : List Log) (e : Exn) : good (logItems a ++ logItems p ++ [Item.err e]) = true := by
+  rw [List.append_assoc]
+  exact good_append_logs a _ (good_logs_err p e)
+
 theorem good_stepOutOf (exch : Bool) (rest : List Step) (coerce : Option Exn) :
     good (Abs.items (stepOutOf exch rest coerce)) = true := by
   cases coerce with
@@ -743,7 +770,7 @@ theorem good_stepOutOf (exch : Bool) (rest : List Step) (coerce : Option Exn) :
     simp only [stepOutOf, stepOut]
     cases exch <;> cases h : (headStep rest).act <;>
       simp [processExchangeStep, processStep, h, Abs.items, good, leOnly, List.append_assoc, good_append_logs, logsOnly_logItems,
-        good_of_logsOnly]
+        good_of_logsOnly, good_logs_err, good_logs_logs_err]
 
 theorem putItems_world {A : Allocator} (cfg : Cfg) (its : List Item) :
     ∀ (w : World A), good its = true →
@@ -1206,9 +1233,7 @@ theorem step_inv {A : Allocator} (L : AllocLaws A) (cfg : Cfg) (hneed : ∀ b, 0
         simp only [Option.some.injEq] at hs
         subst hs
         refine ⟨?_, fun _ => rfl, by simp, ?_⟩
-        · cases init with
-          | none => exact ⟨logItems il, rfl, logsOnly_logItems il⟩
-          | some e => exact ⟨[], rfl, rfl⟩
+        · exact ⟨logItems il, rfl, logsOnly_logItems il⟩
         · intro h
           cases init with
           | none => simp at h
